@@ -103,17 +103,23 @@ theorem cmdLoop_ovf (sc : Scripts) (k : Nat) (w : World) : (cmdLoop sc k w).1.ov
       | false => exact hp
       | true => dsimp only; exact (ih w1).trans hp
 
-/-- get_user_data: the flag is raised exactly when the pending text is short of room -/
+/-- get_user_data: the flag is raised exactly when the pending text is short of room at a read -/
 theorem userIO_ovf (w : World) (u : Nat) (h : (userIO w u).overflow = false) :
-    w.overflow = false ∧ ((w.net.get u).rx.isEmpty = false → roomShort (w.users.get u).buf.length = false) := by
+    w.overflow = false ∧ ((w.net.get u).rx.isEmpty = false → roomShort (w.users.get u).buf.length = false) ∧
+      heldBack w u = false := by
   unfold userIO at h
+  split at h
+  · cases h
+  rename_i hnh
+  have hnh' : heldBack w u = false := by simpa using hnh
+  unfold userIO0 at h
   dsimp only at h
   split at h
   · rename_i hrx
     simp only [Bool.or_eq_false_iff] at h
-    exact ⟨h.1, fun _ => h.2⟩
+    exact ⟨h.1, fun _ => h.2, hnh'⟩
   · rename_i hrx
-    refine ⟨?_, fun hh => by simp [hh] at hrx⟩
+    refine ⟨?_, fun hh => by simp [hh] at hrx, hnh'⟩
     split at h <;> exact h
 
 theorem fold_userIO_ovf (l : List Nat) (w : World) (h : (l.foldl userIO w).overflow = false) : w.overflow = false := by
